@@ -325,18 +325,26 @@ Theorem C20_info_reasons : forall (md5 : N -> N) (v : ver) (c : ck) (fs : fsys) 
   (forall p c', In (IChecker p c') lines <-> r_checker (getrec d t) = Some p /\ p <> c /\ c' = c) /\
   (forall x, In (IItem KMissingTarget x) lines <-> In x (targets df) /\ exists_ fs x = false) /\
   (forall f, In (IItem KMissingDep f) lines <-> In f (file_dep df) /\ fs f = None) /\
-  (forall f, In (IItem KChanged f) lines <-> In f (file_dep df) /\ file_verdict md5 c fs rc f = FChanged) /\
+  (forall f, In (IItem KChanged f) lines <-> In f (file_dep df) /\ dep_verdict md5 v c fs rc f = FChanged) /\
   (forall f, In (IItem KAdded f) lines <-> In f (file_dep df) /\ exists p, r_deps rc = Some p /\ ~ In f p) /\
   (forall f, In (IItem KRemoved f) lines <-> ~ In f (file_dep df) /\ exists p, r_deps rc = Some p /\ In f p).
 Proof. intros md5 v c fs d t df HA. exact (info_lines_true md5 v c fs d t df HA). Qed.
 Print Assumptions C20_info_reasons.
 
-(* "changed" means: the file exists and has no saved state, or the checker's rule says modified *)
-Theorem C20_info_reasons_changed : forall (md5 : N -> N) (c : ck) (fs : fsys) (r : rec) (f : file),
-  file_verdict md5 c fs r f = FChanged <->
+(* "changed" means: the file exists and has no saved state, or (since the repair fixC of the loop over
+   file_dep; [current] has it) it is not in the saved 'deps:' list -- then `info` lists it under
+   "added" as well --, or the checker's rule says modified *)
+Theorem C20_info_reasons_changed : forall (md5 : N -> N) (v : ver) (c : ck) (fs : fsys) (r : rec) (f : file),
+  dep_verdict md5 v c fs r f = FChanged <->
   exists st, fs f = Some st /\
-             (r_saved r f = None \/ exists e, r_saved r f = Some e /\ check_modified md5 c st e = Some true).
+    (r_saved r f = None \/
+     (r_saved r f <> None /\ fixC v = true /\ outside_saved_deps r f = true) \/
+     (fixC v && outside_saved_deps r f = false /\ exists e, r_saved r f = Some e /\ check_modified md5 c st e = Some true)).
 Proof. exact file_verdict_changed. Qed.
+Theorem C20_info_reasons_outside : forall (r : rec) (f : file),
+  outside_saved_deps r f = true <-> exists p, r_deps r = Some p /\ ~ In f p.
+Proof. exact outside_saved_deps_iff. Qed.
+Print Assumptions C20_info_reasons_outside.
 Print Assumptions C20_info_reasons_changed.
 
 (* no reason is printed exactly when the verdict is up-to-date: whenever `info` says run / error it
